@@ -381,7 +381,7 @@ def run(ctx):
         ops = json.load(open(ctx.replay)).get("ops", [])
     else:
         corpus = [l.strip() for l in open(os.path.join(HERE, "corpus.ops")) if l.strip() and not l.startswith("#")]
-        n = ctx.scale(2500, 60000)
+        n = ctx.scale(2500, 30000)
         ops = corpus + [gen_wr(ctx.rng) for _ in range(n)] + [gen_pool(ctx.rng) for _ in range(n // 5)] + \
             [gen_tw(ctx.rng) for _ in range(n // 3)] + \
             [gen_mask(ctx.rng) for _ in range(n // 3)]
